@@ -438,6 +438,7 @@ func (c *wsConnection) subscribe(start time.Time, msg *message) {
 	go func() {
 		ctx = withSubscriptionErrorContext(ctx)
 		defer func() {
+			var last []*message
 			if r := recover(); r != nil {
 				err := rc.Recover(ctx, r)
 				var gqlerr *gqlerror.Error
@@ -447,16 +448,14 @@ func (c *wsConnection) subscribe(start time.Time, msg *message) {
 						gqlerr.Message = err.Error()
 					}
 				}
-				c.sendError(msg.id, gqlerr)
+				last = append(last, errorMessage(msg.id, gqlerr))
 			}
 			if errs := getSubscriptionError(ctx); len(errs) != 0 {
-				c.sendError(msg.id, errs...)
+				last = append(last, errorMessage(msg.id, errs...))
 			} else {
-				c.complete(msg.id)
+				last = append(last, &message{id: msg.id, t: completeMessageType})
 			}
-			c.mu.Lock()
-			delete(c.active, msg.id)
-			c.mu.Unlock()
+			c.finish(msg.id, last...)
 			cancel()
 		}()
 
@@ -491,6 +490,10 @@ func (c *wsConnection) complete(id string) {
 }
 
 func (c *wsConnection) sendError(id string, errors ...*gqlerror.Error) {
+	c.write(errorMessage(id, errors...))
+}
+
+func errorMessage(id string, errors ...*gqlerror.Error) *message {
 	errs := make([]error, len(errors))
 	for i, err := range errors {
 		errs[i] = err
@@ -499,7 +502,19 @@ func (c *wsConnection) sendError(id string, errors ...*gqlerror.Error) {
 	if err != nil {
 		panic(err)
 	}
-	c.write(&message{t: errorMessageType, id: id, payload: b})
+	return &message{t: errorMessageType, id: id, payload: b}
+}
+
+// finish sends the terminating frames of an operation and releases its id in one critical
+// section: a client that has seen the termination can start a new operation with the id
+// right away, and one that has not cannot have two operations running under one id.
+func (c *wsConnection) finish(id string, msgs ...*message) {
+	c.mu.Lock()
+	for _, m := range msgs {
+		c.handlePossibleError(c.me.Send(m), false)
+	}
+	delete(c.active, id)
+	c.mu.Unlock()
 }
 
 func (c *wsConnection) sendConnectionError(format string, args ...any) {
